@@ -257,7 +257,7 @@ structure Stored where
   compound : Option Compound
   hash : Nat
   nameHash : Nat
-  deriving DecidableEq, Repr
+  deriving DecidableEq, Repr, Inhabited
 
 /-- MarshalProtoMetricV1 after validation. -/
 def build (tb : Bool) (sort : List Tag → List Tag) (H : String → Nat) (v : VMetric) : Stored :=
